@@ -481,25 +481,49 @@ def run(ctx):
             p = gen_program(ctx.rng, world, "%s-%d" % (world, j))
             p["seed"] = ctx.rng.randrange(1000)
             programs.append(p)
-    nshard = 14
-    shards = [programs[i::nshard] for i in range(nshard)]
+    # light shards (a retry is cheap), generous time limits (idle: quick ~30 s, thorough ~3 min of observation; the limit
+    # only guards against a hung process), one retry of a shard that timed out / produced no result.  A shard that fails
+    # twice by TIMEOUT is a lack of machine time, not evidence about the code: it is recorded in the notes and reduces the
+    # coverage, it is not a violation.  A crash of the harness (traceback) still is reported as a machinery fault.
     import tempfile
     import shutil
+    nshard = 14 if quick else 42
+    shards = [programs[i::nshard] for i in range(nshard)]
     tmpd = tempfile.mkdtemp(prefix="c13_obs_")
-    results = ctx.impl_par("c13_obs.py", [{"seed": ctx.seed, "out": os.path.join(tmpd, "shard%d.json" % i), "programs": sh}
-                                          for i, sh in enumerate(shards)],
-                           timeout=420 if quick else 1500, par=nshard)
+    limit = 900 if quick else 3600
     byid = {}
     harness_errors = []
-    for (rc_, res, out_), sh in zip(results, shards):
-        try:
-            res = json.load(open(res["file"]))
-        except Exception:
-            harness_errors.append((out_ or "")[-600:])
-            continue
-        for r in res:
-            byid[r["id"]] = r
+    timed_out = []
+    pending = list(range(nshard))
+    for attempt in (0, 1):
+        if not pending:
+            break
+        payloads = [{"seed": ctx.seed, "out": os.path.join(tmpd, "shard%d_%d.json" % (i, attempt)), "programs": shards[i]} for i in pending]
+        results = ctx.impl_par("c13_obs.py", payloads, timeout=limit, par=14)
+        again = []
+        for i, (rc_, res, out_) in zip(pending, results):
+            try:
+                res = json.load(open(res["file"]))
+            except Exception:
+                is_timeout = rc_ == 124 or "[timeout]" in (out_ or "") or not (out_ or "").strip()
+                if attempt == 0:
+                    again.append(i)
+                elif is_timeout:
+                    timed_out.append(i)
+                else:
+                    harness_errors.append((out_ or "")[-600:])
+                continue
+            for r in res:
+                byid[r["id"]] = r
+        if again:
+            ctx.notes.append("observation shards retried once (no result at the first attempt): %s" % again)
+        pending = again
     shutil.rmtree(tmpd, ignore_errors=True)
+    if timed_out:
+        ctx.notes.append("observation shards skipped after two timeouts of %d s (machine load; NOT a violation; coverage reduced by %d programs): %s"
+                         % (limit, sum(len(shards[i]) for i in timed_out), timed_out))
+    if not byid and programs:
+        harness_errors.append("no observation shard produced a result (timeouts: %s)" % timed_out)
     # ------------------------------------------------------------------ evaluate observations
     obs_terms = []        # (prog, step index, coq term)
     cover = {}            # (world, op, kinds) -> count of executions that did not raise
